@@ -321,8 +321,9 @@ def run_history(world, case):
     clock = case.get('clock0', 0)
     results = []
     reuse_box = {}
-    cyclic = is_cyclic(n, full) if not stages else False
+    base_cyclic = is_cyclic(n, full) if not stages else False
     for irun, run in enumerate(case['runs']):
+        cyclic = base_cyclic
         world.outcomes = run['outcomes']
         world.run_execs = [0] * n
         rng = random.Random(run['seed'])
@@ -333,14 +334,32 @@ def run_history(world, case):
         env0 = snapshot_env(env, n)
         started0 = list(world.exec_count)
         sched_box = {}
+        run_hard_g, run_soft_g = hard_g, soft_g
+        if run.get('hard') is not None and not stages:
+            # this run schedules the same task objects with other edges (another Scheduler)
+            rfull, _ = semantic_deps({'n': n, 'hard': run['hard'], 'soft': run['soft']})
+            cyclic = is_cyclic(n, rfull)
+            for t in range(n):
+                tasks[t].deps_idx = rfull[t]
+            run_hard_g = world.DepGraph.from_dependency_dictionary(
+                {tasks[t]: [tasks[d] for d in run['hard'][t]] for t in range(n)})
+            run_soft_g = world.DepGraph.from_dependency_dictionary(
+                {tasks[t]: [tasks[d] for d in run['soft'][t]] for t in range(n)})
+        elif not stages:
+            for t in range(n):
+                tasks[t].deps_idx = full[t]
 
         def body():
-            if case.get('reuse') and reuse_box:
+            if case.get('reuse') == 'backend' and reuse_box:
+                # the same backend object serves another Scheduler (possibly another graph)
+                backend = reuse_box['backend']
+                sched = world.Scheduler(hard_graph=run_hard_g, soft_graph=run_soft_g, backend=backend)
+            elif case.get('reuse') and reuse_box:
                 # the same Scheduler object (and backend) schedules again
                 backend, sched = reuse_box['backend'], reuse_box['sched']
             else:
                 backend = world.queue_mod.QueueScheduling(n_workers=case['workers'])
-                sched = world.Scheduler(hard_graph=hard_g, soft_graph=soft_g, backend=backend)
+                sched = world.Scheduler(hard_graph=run_hard_g, soft_graph=run_soft_g, backend=backend)
                 reuse_box['backend'], reuse_box['sched'] = backend, sched
             sched_box['backend'] = backend
             sched_box['order'] = [world.names[t.name] for t in sched.full_graph.topological_sort()] \
